@@ -3,7 +3,7 @@ CONSTANTS
   Parts = {1, 2}
   Keys = {2, 4}
   Vals = {1}
-  Variant = "batch"
+  Variant = "prunefirst"
   MaxCommits = 2
 INVARIANTS Consistent PreOrPost TreeIntact
 CHECK_DEADLOCK FALSE
